@@ -212,6 +212,32 @@ def check_model(case, ctx):
             ok, emp = ctx.call("t_model.empirical_cdf", tm.empirical_cdf, x.copy())
             if ok and not abs(float(emp[0]) - ref) <= sb.hoeffding_eps(10**6):
                 ctx.violation("empirical_cdf", f"x={x.tolist()} empirical={float(emp[0])!r} exact={ref!r} bound {sb.hoeffding_eps(10**6):.4g}")
+        elif what == "seeded_sample":
+            # random_state given as an int (0 and 1 included): reproducible, the inverse-transformed seeded base
+            # sample, and distributed like the push-forward (joint cdf at one point, Hoeffding bound)
+            n = 20000
+            sd = int(case["seed"])
+            ok, smp = ctx.call("t_model.draw_sample:seeded", tm.draw_sample, n, random_state=sd)
+            if ok:
+                smp = np.asarray(smp, dtype=float)
+                smp2 = np.asarray(tm.draw_sample(n, random_state=sd), dtype=float)
+                if smp.shape != (n, 2) or not np.allclose(smp, smp2, rtol=1e-9):
+                    ctx.violation("draw_sample:seed_not_reproducible", f"seed={sd}: shape {smp.shape}, first rows {smp[:2].tolist()} vs {smp2[:2].tolist()}")
+                b = np.asarray(base.draw_sample(n, random_state=sd), dtype=float)
+                exp = np.c_[b[:, 0], np.sqrt(FAC * b[:, 0] / b[:, 1])]
+                if smp.shape != (n, 2) or not np.allclose(smp, exp, rtol=1e-9):
+                    ctx.violation("draw_sample:seeded_not_inverse_of_base_sample", f"seed={sd}: first rows {smp[:2].tolist()} vs {exp[:2].tolist()}")
+                x = X[0]
+
+                def integrand(u):
+                    return float(refmodel.level_fun(spec, 0, "pdf", u)) * (1 - float(refmodel.level_fun(spec, 1, "cdf", FAC * u / x[1] ** 2, u)))
+
+                pts_ = refmodel.level_fun(spec, 0, "icdf", np.array([1e-6, 0.01, 0.1, 0.3, 0.5, 0.7, 0.9, 0.99]))
+                pts_ = [p for p in pts_ if 0 < p < x[0]]
+                ref, err = integrate.quad(integrand, 0, x[0], points=pts_ or None, limit=200)
+                emp = float(np.mean((smp[:, 0] <= x[0]) & (smp[:, 1] <= x[1])))
+                if err <= 1e-6 and not abs(emp - ref) <= sb.hoeffding_eps(n) + 1e-6:
+                    ctx.violation("draw_sample:seeded_sample_off_cdf", f"seed={sd} n={n} x={x.tolist()}: empirical joint cdf of the seeded sample {emp!r}, push-forward cdf {ref!r}, bound {sb.hoeffding_eps(n):.4g}")
         elif what == "sample":
             n = case["n"]
             np.random.seed(case["seed"] % (2**32))
@@ -228,14 +254,14 @@ def check_model(case, ctx):
 @st.composite
 def strat_model(draw, tier):
     case = draw(model_params())
-    case["what"] = draw(st.sampled_from(["pdf", "pdf", "pdf", "sample", "sample", "norm", "cdf"]))
+    case["what"] = draw(st.sampled_from(["pdf", "pdf", "pdf", "sample", "sample", "seeded_sample", "seeded_sample", "norm", "cdf"]))
     k = draw(st.integers(1, 5))
     ql = st.one_of(st.floats(0.02, 0.98), st.sampled_from([1e-4, 1e-3, 1 - 1e-3, 1 - 1e-5]))
     case["qh"] = draw(st.lists(ql, min_size=k, max_size=k))
     case["qs"] = draw(st.lists(ql, min_size=k, max_size=k))
     case["n"] = draw(st.integers(1, 2000))
-    case["seed"] = draw(st.integers(0, 2**31 - 1))
-    if case["what"] == "cdf":
+    case["seed"] = draw(st.one_of(st.sampled_from([0, 1, 42]), st.integers(0, 2**31 - 1)))
+    if case["what"] in ("cdf", "seeded_sample"):
         case["qh"] = [draw(st.floats(0.1, 0.95))]
         case["qs"] = [draw(st.floats(0.1, 0.9))]
     return case
